@@ -267,6 +267,20 @@ for _cid, _m in {
     "C14": {"dropped_in_mid_write_cases": 40},
 }.items():
     EXTRA_MIN.setdefault(_cid, {}).update(_m)
+# round 9
+for _cid, _m in {
+    "C02": {"publishes_with_non_utf8_payload": 200},
+    "C03": {"backlog_from_the_start_cases": 60},
+    "C04": {"reconnections_after_transport_end": 60},
+    "C05": {"early_operation_cases": 20},
+    "C06": {"resumed_connection_cases": 20},
+    "C09": {"several_identifier_cases": 20},
+    "C10": {"early_publish_cases": 10},
+    "C13": {"first_connection_ended_inside_a_packet": 40},
+    "C14": {"queued_behind_the_end_cases": 4},
+    "C17": {"resumptions_through_authorize": 2000},
+}.items():
+    EXTRA_MIN.setdefault(_cid, {}).update(_m)
 for _cid, _m in EXTRA_MIN.items():
     for _tier in ("quick", "thorough"):
         CHECKS[_cid]["min_observed"].setdefault(_tier, {})
